@@ -10,9 +10,13 @@ rnd = sys.argv[1]; only = sys.argv[2:]
 PROPS = [f'C{i:02d}' for i in range(1, 21)]
 
 def one(patch, tmp):
-    prop = patch.split('/')[3]
-    k = re.search(r'patch(\d+)\.diff', patch).group(1)
-    name = f'{prop}-r{k}'
+    if os.path.basename(patch) == 'patch.diff':
+        name = os.path.basename(os.path.dirname(patch))
+        prop = name[:3]
+    else:
+        prop = patch.split('/')[3]
+        k = re.search(r'patch(\d+)\.diff', patch).group(1)
+        name = f'{prop}-r{k}'
     sd = os.path.join(tmp, name)
     os.makedirs(sd)
     out = []
@@ -32,9 +36,14 @@ def one(patch, tmp):
 
 tmp = tempfile.mkdtemp(prefix='refaceval-')
 try:
-    patches = sorted(glob.glob(f'/tmp/{rnd}/C*/_seed/patch*.diff'))
-    if only:
-        patches = [p for p in patches if p.split('/')[3] in only]
+    if rnd == 'corpus':
+        patches = sorted(glob.glob(os.path.join(root, 'refactors', 'C*', 'patch.diff')))
+        if only:
+            patches = [p for p in patches if os.path.basename(os.path.dirname(p))[:3] in only]
+    else:
+        patches = sorted(glob.glob(f'/tmp/{rnd}/C*/_seed/patch*.diff'))
+        if only:
+            patches = [p for p in patches if p.split('/')[3] in only]
     with concurrent.futures.ThreadPoolExecutor(8) as ex:
         res = list(ex.map(lambda p: one(p, tmp), patches))
 finally:
